@@ -83,6 +83,21 @@ fn one(cfg: &Cfg, s: &mut Session, op: &BeOp, out: &FeOut, seqno: u64, case: &st
     if req.complete() && (req.hdr().code != op.code() || req.hdr().flags != want_flags || req.body != body || req.fds_first.len() != nfds) {
         problems.push(("request-on-wire".into(), format!("hdr {:?} body {:x?} fds {}", req.hdr(), req.body, req.fds_first.len())));
     }
+    if !req.complete() {
+        // nothing (or only part of a request) reached the wire: there is nothing to hand to the
+        // handler; release the caller and report
+        unsafe { libc::shutdown(s.proxy_fd, libc::SHUT_RDWR) };
+        let (res, _file) = th.join().expect("proxy thread");
+        report::eval(1);
+        report::violation(
+            &format!("C18:{}:request-not-written", op.name()),
+            jo! {"request" => op.j(), "handler_result_scripted" => format!("{out:?}"), "reply_ack" => s.reply_ack, "position_in_session" => seqno,
+            "bytes_on_wire" => req.hdr_bytes.len() + req.body.len(), "proxy_result" => format!("{:?}", res.as_ref().map_err(|p| p.msg.clone()))},
+            cfg.replay(case),
+        );
+        req.close_fds();
+        return false;
+    }
     let _ = sys::send_all(s.tap_f, &req.all_bytes(), &req.fds_first);
     let handled = util::catch(|| s.srv.handle_request());
     req.close_fds();
